@@ -907,10 +907,21 @@ func (tx *OngoingTx) checkPreconditions(ctx context.Context, st *ImmuStore) erro
 					}
 
 					if eRead.expectedTx == 0 {
-						if err == nil && bytes.Equal(eRead.expectedKey, key) {
-							// key was updated by the transaction
-							key = nil
-							valRef = nil
+						if err == nil {
+							cmp := bytes.Compare(key, eRead.expectedKey)
+							if eReader.spec.DescOrder {
+								cmp = -cmp
+							}
+
+							if cmp == 0 {
+								// key was updated by the transaction
+								key = nil
+								valRef = nil
+							} else if cmp < 0 {
+								// an entry that was not there when the transaction read its
+								// own (not yet committed) entry now precedes it
+								return fmt.Errorf("%w: fetching a different key or an updated one", ErrTxReadConflict)
+							}
 						}
 					} else {
 						if errors.Is(err, ErrNoMoreEntries) {
